@@ -235,6 +235,38 @@ fn attack_input(ti: usize, t: &Target, args: Vec<Val>, tier: &Tier, seed: u64, r
                     plans.push(vec![Fault { occ: oi, strat, variant, salt: mix(tseed, oi as u64) }]);
                 }
             }
+            // Tier 1b: a witness lie together with a flipped branch flag right before or after it in
+            // the same libfunc (a cheating prover picks the branch that suits its witness; with a
+            // single lie the next flag is computed honestly from the lied value).
+            let is_flag = |o: &OccLog| {
+                matches!(o.kind, "TestLessThan" | "TestLessThanOrEqual" | "TestLessThanOrEqualAddress")
+            };
+            for w in occs.windows(2) {
+                let (a, b) = (w[0], w[1]);
+                if b != a + 1 || t.site(hlog[a].pc) != t.site(hlog[b].pc) {
+                    continue;
+                }
+                let (wit, flag, flag_first) = if is_flag(&hlog[b]) && !is_flag(&hlog[a]) {
+                    (a, b, false)
+                } else if is_flag(&hlog[a]) && !is_flag(&hlog[b]) {
+                    (b, a, true)
+                } else {
+                    continue;
+                };
+                for (strat, variant) in applicable(&hlog[wit]) {
+                    // Keep the pair space small: algebraic lies and the two classic off-by-ones.
+                    if strat != "alg" && strat != "plus1" && strat != "minus1" {
+                        continue;
+                    }
+                    let mut plan = vec![
+                        Fault { occ: wit, strat, variant, salt: mix(tseed, wit as u64) },
+                        Fault { occ: flag, strat: "flip".into(), variant: 0, salt: 0 },
+                    ];
+                    plan.sort_by_key(|f| f.occ);
+                    let _ = flag_first;
+                    plans.push(plan);
+                }
+            }
             // Tier 2: seeded multi-fault sequences.
             if !hlog.is_empty() {
                 for _ in 0..tier.multi_fault_runs {
